@@ -69,14 +69,16 @@ def expected(classes):
 
 
 def dontcare_class_sites(classes):
-    """(method key, offset) of const-class/new-instance sites that are don't-care (array of class, self)"""
+    """(method key, offset) of const-class/new-instance sites that are don't-care: an array of ANOTHER class (androguard books it on the element
+    class; the statement does not say). A reference of a class to itself or to an array of itself is not "on another class" under either
+    reading, so it must not appear in any list ("nothing else appears there")."""
     out = set()
     for c in classes:
         for m in c.methods:
             for off, kind, opname, tgt in m.sites:
                 if kind in ("new-instance", "const-class"):
                     base = tgt.lstrip("[")
-                    if base.startswith("L") and (tgt.startswith("[") or base == c.name):
+                    if base.startswith("L") and tgt.startswith("[") and base != c.name:
                         out.add((m.key, off, base))
     return out
 
